@@ -10,7 +10,7 @@ static void put(const std::string &s, char *out, int cap) { int i = 0; for(; i <
 #define KIND 0
 #endif
 extern "C" {
-// KIND (compile time): 0 INTEGER, 1 REAL, 2 NUMBER, 3 STRING, 4 BOOLEAN.  Returns the severity of STEPread; INTEGER and STRING are written back with STEPwrite.
+// KIND (compile time): 0 INTEGER, 1 REAL, 2 NUMBER, 3 STRING, 4 BOOLEAN, 5 LOGICAL, 6 BINARY.  Returns the severity of STEPread; INTEGER and STRING are written back with STEPwrite.
 __attribute__((noinline)) int w_attr_read(int kind, const char *text, int optional, int strict, long *ival, double *rval, long *pos, char *written, int cap) {
     SDAI_Integer iv = 77; SDAI_Real rv = 7.5; (void)kind;
 #if KIND == 0
@@ -21,8 +21,12 @@ __attribute__((noinline)) int w_attr_read(int kind, const char *text, int option
     TypeDescriptor td("Number", NUMBER_TYPE, (Schema *)0, "Number");
 #elif KIND == 3
     TypeDescriptor td("String", STRING_TYPE, (Schema *)0, "String"); SDAI_String sv;
-#else
+#elif KIND == 4
     TypeDescriptor td("Boolean", BOOLEAN_TYPE, (Schema *)0, "Boolean"); SDAI_BOOLEAN bv; bv.set_null();
+#elif KIND == 5
+    TypeDescriptor td("Logical", LOGICAL_TYPE, (Schema *)0, "Logical"); SDAI_LOGICAL lv; lv.set_null();
+#else
+    TypeDescriptor td("Binary", BINARY_TYPE, (Schema *)0, "Binary"); SDAI_Binary binv;
 #endif
     AttrDescriptor ad("a", &td, optional ? LTrue : LFalse, LFalse, AttrType_Explicit, *(EntityDescriptor *)owner_raw);
 #if KIND == 0
@@ -31,8 +35,12 @@ __attribute__((noinline)) int w_attr_read(int kind, const char *text, int option
     STEPattribute attr(ad, &rv);
 #elif KIND == 3
     STEPattribute attr(ad, &sv);
-#else
+#elif KIND == 4
     STEPattribute attr(ad, (SDAI_Enum *)&bv);
+#elif KIND == 5
+    STEPattribute attr(ad, (SDAI_Enum *)&lv);
+#else
+    STEPattribute attr(ad, &binv);
 #endif
     std::istringstream in(text);
     Severity s = attr.STEPread(in, 0, 0, 0, strict != 0);
